@@ -50,4 +50,17 @@ Section Geom.
   (* rotation by an angle with cosine c and sine s about (ox, oy) *)
   Definition rotate_about (ox oy c s : T) (l : list pt) : list pt :=
     map (fun p => (ox + (c * (fst p - ox) - s * (snd p - oy)), oy + (s * (fst p - ox) + c * (snd p - oy)))) l.
+
+  (* crossing-number point-in-polygon test on a closed ring (even-odd rule) *)
+  Fixpoint crossings (l : list pt) (p : pt) : bool :=
+    match l with
+    | a :: ((b :: _) as tl) =>
+        let straddles := negb (Bool.eqb (o_ltb O (snd p) (snd a)) (o_ltb O (snd p) (snd b))) in
+        let hit := if straddles
+                   then o_ltb O (fst p) (o_add O (fst a) (o_div O ((fst b - fst a) * (snd p - snd a)) (snd b - snd a)))
+                   else false in
+        xorb hit (crossings tl p)
+    | _ => false
+    end.
+  Definition inside (l : list pt) (p : pt) : bool := crossings l p.
 End Geom.
